@@ -302,6 +302,12 @@ func runC16(c *core.Ctx) {
 					fail("wrong-value-in-effect", fmt.Sprintf("a log written as %q (level %s) is read although %q (level %s) should be in effect", c16Layouts[dl], dl, c16Layouts[lv], lv), res, args, env, conf)
 				}
 			}
+			// the positional date of summary is read in it
+			sres, sargs, senv, sconf := e.exec(a, "", lv, "summary", time.Date(2021, 1, 24, 0, 0, 0, 0, time.UTC).Format(c16Layouts[lv]))
+			c.Eval(1)
+			if sres.Exit != 0 || !strings.Contains(sres.Out, "marker_log_") {
+				fail("summary-date-argument", fmt.Sprintf("summary %s (a date in the layout in effect) gives exit %d, output %q, %s", time.Date(2021, 1, 24, 0, 0, 0, 0, time.UTC).Format(c16Layouts[lv]), sres.Exit, clip(sres.Out, 60), clip(sres.Serr, 120)), sres, sargs, senv, sconf)
+			}
 			// and printing uses it
 			res, args, env, conf := e.exec(a, "", lv, "print")
 			c.Eval(1)
